@@ -202,6 +202,27 @@ pub fn run<W: Write>(out: &mut W) {
             rows.push(json!([len, t, c]));
         }
     }
+    // the same rule on hand-assembled generator objects (the fields are public): a set that CARRIES more base points than its
+    // extension degree says (built from the degree-6 set by changing only `extension_degree`) must still bound the blinding count by the degree
+    for len in 0usize..=8 {
+        for t in 1usize..=6 {
+            let six = FM::pedersen(6);
+            let mut pc = six.clone();
+            pc.extension_degree = FM::pedersen(t).extension_degree;
+            let bl: Vec<Scalar> = (0..len).map(|k| Scalar::from(k as u64 + 21)).collect();
+            let v = Scalar::from(1234u64);
+            let r = catch_unwind(AssertUnwindSafe(|| pc.commit(&v, &bl)));
+            let c = code(r, |p| {
+                let mut e = FM::zero();
+                e.add_scaled(&v, pc.h_base());
+                for (b, g) in bl.iter().zip(pc.g_base_vec.iter()) {
+                    e.add_scaled(b, g);
+                }
+                *p == e
+            });
+            rows.push(json!([len, t, c]));
+        }
+    }
     writeln!(out, "{}", json!({"family": "commit", "rows": rows})).unwrap();
     let _: Option<Value> = None;
 }
